@@ -633,6 +633,18 @@ impl Prop for C14 {
                 ],
             });
         }
+        // a reorganisation as deep as the whole remembered window (100 blocks) after a restart of
+        // the signer: it must be followed, and the funding is then unconfirmed again
+        {
+            let mut steps = vec![connect(vec![TxSel::Funding { c: 0 }])];
+            for _ in 0..100 {
+                steps.push(connect(vec![]));
+            }
+            steps.push(Step::Restart);
+            steps.push(Step::Disconnect { depth: 100, stream: false });
+            steps.push(connect(vec![TxSel::Funding { c: 0 }]));
+            v.push(Case { batch: false, level_b: true, wire: true, chans: vec![chan(vec![])], steps });
+        }
         v
     }
 
